@@ -324,7 +324,14 @@ void MasterMS<Scalar>::init_mms(const std::string& my_name,
         }
       if (name == mapped_name)
         {
+          // a re-used handle releases the instance it held
+          typename std::map<std::string, manufactured_solution<Scalar> *>::iterator old = _master_map.find(my_name);
+          if (old != _master_map.end())
+            delete old->second;
           _master_map[my_name] = _master_pointer = anim[i];
+          // release the candidates that were not yet examined
+          for (unsigned int j=i+1; j != anim.size(); ++j)
+            delete anim[j];
           return;
         }
       else
